@@ -205,6 +205,10 @@ def run_check(pid, tier, opts):
     if tot['overflow']:
         print('%s: %d further violations not itemised (per-case cap)' % (pid, tot['overflow']))
         rc = 1
+    if spec.get('truncated'):
+        print('%s: exploration truncated by the module (%s); result is NOT exhaustive' % (pid, spec['truncated']))
+        if rc == 0:
+            rc = 2
     if capped:
         print('%s: wall-clock cap of %.0f s hit after %d of %d cases; result is NOT exhaustive' % (pid, cap, done, n))
         if rc == 0:
@@ -230,7 +234,7 @@ def run_check(pid, tier, opts):
         'evaluations': tot['evals'],
         'distinct_nontrivial': tot['nontrivial'],
         'rule': spec.get('rule', ''),
-        'exhaustive': (not capped),
+        'exhaustive': (not capped) and not spec.get('truncated'),
         'pool_cases': n, 'pool_cases_done': done,
         'bounds': jsonable(spec.get('bounds', {})),
         'outcome_classes': dict(sorted(classes.items())),
